@@ -407,6 +407,124 @@ async fn corruption_sweep(mon: &Monitor, rng: &mut Rng, path: &Path, cur: &str, 
     let _ = std::fs::remove_dir_all(&d);
 }
 
+/// Race lane: `change_password` while other OS threads are inside cached retrieves. Before the change
+/// every id is in the cache, so a reader presenting the old password only ever HITS the cache until the
+/// change clears it and afterwards fails on the re-encrypted file: no reader can legitimately put an
+/// entry for the old password back. Once `change_password` has returned Ok the old password must
+/// therefore open nothing and the new one everything, however the readers were scheduled.
+fn change_vs_cached_readers(mon: &Monitor, rng: &mut Rng) {
+    use std::sync::atomic::{AtomicBool, AtomicU64, Ordering};
+    STEM.with(|c| *c.borrow_mut() = None);
+    let dir = scratch();
+    let path = dir.join("keys.enc");
+    let mgr = match EncryptedKeyStorageManager::new(&path, SecurityLevel::Fast) {
+        Ok(m) => m,
+        Err(e) => {
+            mon.inconclusive(&format!("manager ctor failed: {e}"));
+            return;
+        }
+    };
+    let rt = tokio::runtime::Builder::new_current_thread().enable_all().build().expect("rt");
+    // long passphrases: the keyed tag of the presented password is computed inside the cache probe, so
+    // the read lock is held for tens of microseconds per retrieve
+    let mut pad = String::new();
+    let want = rng.urange(2_000, 60_000);
+    while pad.len() < want {
+        pad.push_str(&format!("Hp{}-Tn{}_Rd{}#", rng.range(10, 99), rng.range(10, 99), rng.range(10, 99)));
+    }
+    let mut cur = format!("{pad}{}", pw(rng, 1));
+    let ids = ["alpha", "beta"];
+    let mut seeds: BTreeMap<&str, [u8; 32]> = BTreeMap::new();
+    let ok = rt.block_on(async {
+        if mgr.initialize(&ss(&cur)).await.is_err() {
+            return false;
+        }
+        for id in ids {
+            let seed = rng.arr32();
+            let ms = MasterSeed::from_entropy(&seed).expect("seed");
+            if mgr.store_master_seed(id, &ms, &ss(&cur)).await.is_err() {
+                return false;
+            }
+            seeds.insert(id, seed);
+        }
+        true
+    });
+    if !ok {
+        mon.inconclusive("race lane: initialize/store with a long passphrase failed");
+        let _ = std::fs::remove_dir_all(&dir);
+        return;
+    }
+    let rounds = mon.by_tier(4usize, 16);
+    let readers = rng.urange(3, 8);
+    for round in 0..rounds {
+        if mon.time_up() {
+            break;
+        }
+        // warm the cache for every id with the current password
+        for id in ids {
+            if rt.block_on(mgr.retrieve_master_seed(id, &ss(&cur))).is_err() {
+                mon.violation("race-lane/refused-current-password-before-change", json!({"round": round, "id": id}));
+            }
+        }
+        let newp = format!("{pad}{}", pw(rng, round + 2));
+        let stop = AtomicBool::new(false);
+        let hits = AtomicU64::new(0);
+        let old_ss = ss(&cur);
+        let changed = std::thread::scope(|s| {
+            for t in 0..readers {
+                let (mgr, stop, hits, old_ss) = (&mgr, &stop, &hits, &old_ss);
+                let id = ids[t % ids.len()];
+                s.spawn(move || {
+                    let rt = tokio::runtime::Builder::new_current_thread().build().expect("rt");
+                    while !stop.load(Ordering::Relaxed) {
+                        if rt.block_on(mgr.retrieve_master_seed(id, old_ss)).is_ok() {
+                            hits.fetch_add(1, Ordering::Relaxed);
+                        }
+                    }
+                });
+            }
+            // readers are running before the change starts
+            let t0 = std::time::Instant::now();
+            while hits.load(Ordering::Relaxed) < 200 && t0.elapsed().as_secs() < 5 {
+                std::thread::yield_now();
+            }
+            let r = rt.block_on(mgr.change_password(&old_ss, &ss(&newp)));
+            stop.store(true, Ordering::Relaxed);
+            r
+        });
+        let h = hits.load(Ordering::Relaxed);
+        mon.count("race-lane.cached-retrieves-alongside-a-change", h);
+        mon.count("race-lane.rounds", 1);
+        mon.case(("race-change", readers, pad.len() / 10_000, h.min(100_000) / 20_000, changed.is_ok()));
+        match changed {
+            Ok(()) => {
+                for id in ids {
+                    mon.evals(2);
+                    if rt.block_on(mgr.retrieve_master_seed(id, &old_ss)).is_ok() {
+                        mon.violation(
+                            "race/previous-password-opens-after-change/readers-in-cached-retrieve",
+                            json!({"round": round, "id": id, "readers": readers, "password_bytes": cur.len(), "cached_retrieves_alongside": h}),
+                        );
+                    }
+                    match rt.block_on(mgr.retrieve_master_seed(id, &ss(&newp))) {
+                        Ok(ms) if ms.seed_material() == &seeds[id][..] => {}
+                        Ok(_) => mon.violation("race/returned-different-seed-after-change", json!({"round": round, "id": id})),
+                        Err(e) => mon.violation("race/new-password-refused-after-change", json!({"round": round, "id": id, "err": e.to_string()})),
+                    }
+                }
+                // a stale entry must not survive into the next round
+                let _ = mgr.clear_cache();
+                cur = newp;
+            }
+            Err(e) => {
+                mon.violation("race/change-refused-with-current-password", json!({"round": round, "err": e.to_string()}));
+                break;
+            }
+        }
+    }
+    let _ = std::fs::remove_dir_all(&dir);
+}
+
 fn main() {
     let mon = Monitor::new("C18", "fault_enumeration");
     // supplementary sanitizer lanes (thorough tier): built and run alongside the behavioural workload, joined before the verdict
@@ -426,6 +544,13 @@ fn main() {
             }
         });
     });
+    // race lane (after the sharded histories: it wants the cores for its reader threads)
+    {
+        let mut rng = Rng::new(mon.seed ^ 0xC18_0D);
+        for _ in 0..mon.by_tier(3usize, 10) {
+            change_vs_cached_readers(&mon, &mut rng);
+        }
+    }
     checks::pstate::scratch_cleanup();
     // supplementary sanitizer lanes (thorough): corruption sweep under ASan; SecureMemory life-cycle under Miri
     checks::lanes::join(&mon, lanes);
